@@ -191,6 +191,89 @@ def judge_geometry(recs):
     return bad
 
 
+# ---------------------------------------------------------------------------------- pagination does not move siblings
+def gen_ptree(rng, depth, counter):
+    st = []
+    if rng.random() < 0.6:
+        st.append('margin-top:%dpx' % rng.choice([0, 5, 10, 20, 30, -5]))
+    if rng.random() < 0.6:
+        st.append('margin-bottom:%dpx' % rng.choice([0, 5, 10, 20, 30, -5]))
+    if rng.random() < 0.3:
+        st.append('padding-top:%dpx' % rng.choice([0, 3, 10, 25]))
+    if rng.random() < 0.4:
+        st.append('padding-bottom:%dpx' % rng.choice([0, 3, 10, 25, 40]))
+    if rng.random() < 0.2:
+        st.append('border-top:%dpx solid' % rng.choice([1, 4]))
+    if rng.random() < 0.2:
+        st.append('border-bottom:%dpx solid' % rng.choice([1, 4]))
+    counter[0] += 1
+    eid = 'b%d' % counter[0]
+    r = rng.random()
+    if depth < 3 and r < 0.55:
+        kids = ''.join(gen_ptree(rng, depth + 1, counter) for _ in range(rng.choice([1, 2, 3])))
+        if rng.random() < 0.2:
+            st.append('height:%dpx' % rng.choice([40, 60, 90]))
+    elif r < 0.8:
+        kids = '<br>'.join(['abc'] * rng.choice([1, 1, 2, 3]))
+    else:
+        kids = ''
+        if rng.random() < 0.6:
+            st.append('height:%dpx' % rng.choice([10, 20, 30]))
+    return '<div id="%s" style="%s">%s</div>' % (eid, ';'.join(st), kids)
+
+
+def gen_pdoc(rng):
+    counter = [0]
+    body = ''.join(gen_ptree(rng, 0, counter) for _ in range(rng.choice([2, 3, 5])))
+    css = ('html{font-family:weasyprint;font-size:10px;line-height:10px}body{margin:0;width:200px}')
+    H = rng.choice([60, 80, 100, 120, 150, 200])
+    return ('<style>@page{size:300px 100000px;margin:0}' + css + '</style>' + body,
+            '<style>@page{size:300px %dpx;margin:0}' % H + css + '</style>' + body, H)
+
+
+def judge_gaps(tall, short):
+    """gaps between adjacent in-flow siblings that share a page (and are whole on it) are those of the unpaginated
+    rendering: pagination neither adds nor removes space between them"""
+    def top(r):
+        return r['y'] + r['mt']
+
+    def bottom(r):
+        return r['y'] + r['mt'] + r['bt'] + r['pt'] + r['h'] + r['pb'] + r['bb']
+    tby = {r['eid']: r for r in tall if r['eid'] and r['normal']}
+    if not all(isnum(r[k]) for r in tall for k in ('y', 'h', 'mt')) or not all(isnum(r[k]) for r in short for k in ('y', 'h', 'mt')):
+        return []
+    kids = {}
+    byidx = {r['idx']: r for r in tall}
+    for r in tall:
+        if r['eid'] and r['normal'] and r['parent'] is not None:
+            kids.setdefault(byidx[r['parent']]['eid'], []).append(r['eid'])
+    sby = {}
+    for r in short:
+        if r['eid'] and r['normal']:
+            sby.setdefault(r['eid'], []).append(r)
+    bad = []
+    for parent, ks in kids.items():
+        for a, b in zip(ks, ks[1:]):
+            if len(sby.get(a, [])) != 1 or len(sby.get(b, [])) != 1:
+                continue
+            ra, rb = sby[a][0], sby[b][0]
+            if ra['page'] != rb['page']:
+                continue
+            # a must not be the first fragment of the parent's content on that page unless the parent starts there
+            first_on_page = not any(len(sby.get(k, [])) >= 1 and sby[k][-1]['page'] == ra['page'] for k in ks[:ks.index(a)])
+            if first_on_page and parent in sby and sby[parent][0]['page'] != ra['page']:
+                continue
+            # margins that collapse through empty boxes, and margins adjoining the top of a page (truncated after a
+            # break), are not judged here
+            if bottom(ra) - top(ra) <= 1e-9 or bottom(rb) - top(rb) <= 1e-9 or top(ra) <= 1e-9:
+                continue
+            g_tall = top(tby[b]) - bottom(tby[a])
+            g_short = top(rb) - bottom(ra)
+            if abs(g_tall - g_short) > 1e-6:
+                bad.append(('sibling-gap-changed-by-pagination', (a, b, g_tall, g_short, ra['page'])))
+    return bad
+
+
 def check(run):
     rng = random.Random(run.seed * 7919 + 5)
     thorough = run.tier == 'thorough'
@@ -327,11 +410,35 @@ def check(run):
     run.stream_info('render-geometry', boxes=nboxes, patterns=len(seen),
                     rule='random trees of block boxes depth<=5, margins/paddings/borders/width/min/max/height/box-sizing '
                          'in {auto,0,px,%,em,negative margins}, ltr/rtl; every in-flow block box judged')
+    # ---- pagination must not change the space between siblings that stay on one page
+    pdocs = [gen_pdoc(rng) for _ in range(1500 if thorough else 300)]
+    outs_t = common.run_impl('impl_c05', 'render_geometry', [{'html': t} for t, _, _ in pdocs], limit=60)
+    outs_s = common.run_impl('impl_c05', 'render_geometry', [{'html': sh} for _, sh, _ in pdocs], limit=60)
+    npairs = 0
+    for (t, sh, H), (st1, o1), (st2, o2) in zip(pdocs, outs_t, outs_s):
+        if st1 != 'ok' or st2 != 'ok':
+            st, o = (st1, o1) if st1 != 'ok' else (st2, o2)
+            run.fail('render failed: %s' % (o if st != 'exc' else o['type']), {'stream': 'pagination-gaps', 'html': sh},
+                     signature='timeout' if st == 'timeout' else 'crash:%s' % (o.get('site'),))
+            continue
+        npairs += sum(1 for r in o2 if r['eid'])
+        for clause, detail in judge_gaps(o1, o2)[:1]:
+            run.fail('%s: %s' % (clause, detail), {'stream': 'pagination-gaps', 'html': sh, 'tall': t, 'clause': clause,
+                                                   'detail': detail}, signature='geometry:%s' % clause)
+    run.count('pagination-gaps', len(pdocs), [(H, hash(t) & 0xffff) for t, _, H in pdocs], samples=[pdocs[0][1][:500]])
+    run.stream_info('pagination-gaps', boxes=npairs,
+                    rule='block trees with vertical margins / paddings / borders / fixed heights rendered on one tall page and '
+                         'on pages of 60..200px: the gap between adjacent siblings sharing a page is the same')
 
 
 def replay(data):
     import json
     d = data.get('data', {})
+    if d.get('stream') == 'pagination-gaps':
+        (s1, o1), (s2, o2) = common.run_impl('impl_c05', 'render_geometry', [{'html': d['tall']}, {'html': d['html']}])
+        bad = judge_gaps(o1, o2) if s1 == s2 == 'ok' else [(s1, s2)]
+        print(bad[:3])
+        return 1 if bad else 0
     if d.get('stream') == 'render-geometry':
         (st, o), = common.run_impl('impl_c05', 'render_geometry', [{'html': d['html']}])
         bad = judge_geometry(o) if st == 'ok' else [(st, None, o)]
